@@ -299,6 +299,10 @@ def r5_toggles(ctx, F, table):
                 rm = [d for d in live_calls(b) if d.name == "remove" and vf.render(v.call_args(d)[1], b, roots, short=True) == row["removes"]]
                 ctx.check("R5-toggles", "%s.%s/removes" % (tag, fld), any(set(b.edge_guards(d.bb)) == set(b.edge_guards(c.bb)) for d in rm),
                           "%s::init switches `%s` on without removing %s" % (tag, fld, row["removes"]), loc=c.loc())
+        rt = vf.render(v.ret(), b, roots, short=True, vfx=v)
+        ctx.check("R5-toggles", "%s/base-options" % tag, "FsOptions::bitor(DO_READDIRPLUS, READDIRPLUS_AUTO)" in rt or "FsOptions::bitor(READDIRPLUS_AUTO, DO_READDIRPLUS)" in rt
+                  or "BitOr(DO_READDIRPLUS, READDIRPLUS_AUTO)" in rt,
+                  "%s::init must always ask for DO_READDIRPLUS | READDIRPLUS_AUTO in the options it returns" % tag, loc=b.loc())
         for fld in rows:
             ctx.check("R5-toggles", "%s.%s/present" % (tag, fld), fld in seen, "%s::init no longer switches `%s`" % (tag, fld), loc=b.loc())
     # ---- Vfs::init: stored options
